@@ -129,6 +129,12 @@ def one(prog, rep, cls, comb):
                 vec_st = st
     rep.check(pe_st is not None, "C04.pred", f"{q}:pe", fn.where(W), "pe = mask.sum() / mask.size",
               "the exceedance probability must be the fraction of sample points in the mask (count / size of the SAME mask)")
+    if pe_st is None:
+        # keep analysing with whatever top-level statement computes a value from the mask
+        for st in W.body:
+            if isinstance(st, ast.Assign) and isinstance(st.targets[0], ast.Name) and st is not mask_st and mentions(bs.term(st.value, st), Lc(mname)):
+                pe_st = st
+                break
     if pe_st is None or vec_st is None:
         if vec_st is None:
             rep.fail("C04.sync", f"{q}:vector", fn.where(W), f"the vector {vname} is not assigned at the top level of the search loop")
